@@ -346,6 +346,10 @@ func checkC01(e *core.Env) {
 				// a call that ends with an error status: what arrived before is still an intact prefix
 				sc.Ret = Ret{How: "status", Code: 10, Msg: "ends in failure"}
 			}
+			if rr.Intn(8) == 0 {
+				// a caller with a distant deadline: the call is otherwise the same
+				sc.CallTimeout = pick(rr, time.Hour, 30*time.Hour)
+			}
 			if c.HTTP && sc.Kind.ClientStreams() && rr.Intn(5) == 0 {
 				// a handler that sends its headers first and reads its requests afterwards
 				sc.Handler = append([]Op{{Op: "sendhdr", MD: metadata.MD{"early": {"headers"}}}}, sc.Handler...)
